@@ -299,21 +299,41 @@ def check_ring_symbols_first(ctx, rep, RULE="L8"):
         return isinstance(b, ast.UnaryOp) and isinstance(b.op, ast.Not) and isinstance(b.operand, ast.Attribute) and b.operand.attr == "ring_bond" \
             and isinstance(b.operand.value, ast.Name) and b.operand.value.id == par
     _stmt = Order.stmt
+    phase = {"var": None, "ring": None}
+
+    def eval3(e):
+        """truth of a loop-body test under the phase assumption <var>.ring_bond == phase['ring'] (None: unknown)"""
+        if isinstance(e, ast.Attribute) and e.attr == "ring_bond" and isinstance(e.value, ast.Name) and e.value.id == phase["var"]:
+            return phase["ring"]
+        if isinstance(e, ast.UnaryOp) and isinstance(e.op, ast.Not):
+            v = eval3(e.operand)
+            return None if v is None else (not v)
+        if isinstance(e, ast.BoolOp):
+            vs = [eval3(v) for v in e.values]
+            if isinstance(e.op, ast.And):
+                return False if any(v is False for v in vs) else (True if all(v is True for v in vs) else None)
+            return True if any(v is True for v in vs) else (False if all(v is False for v in vs) else None)
+        return None
+
+    def test(self, expr, state):
+        v = eval3(expr) if phase["var"] is not None else None
+        return (state, None) if v is True else ((None, state) if v is False else (state, state))
+    Order.test = test
 
     def stmt(self, st, state, ctx_):
-        if isinstance(st, ast.For) and not getattr(st, "_split", False) and ring_first(st.iter) and len(st.body) == 1 and isinstance(st.body[0], ast.If) \
-                and isinstance(st.body[0].test, ast.Attribute) and st.body[0].test.attr == "ring_bond" and not st.orelse:
-            tgt = {x.id for x in ast.walk(st.target) if isinstance(x, ast.Name)}
-            tv = st.body[0].test.value
-            if isinstance(tv, ast.Name) and tv.id in tgt:
-                a = ast.copy_location(ast.For(target=st.target, iter=st.iter, body=[ast.copy_location(
-                    ast.If(test=st.body[0].test, body=st.body[0].body, orelse=[]), st.body[0])], orelse=[]), st)
-                b = ast.copy_location(ast.For(target=st.target, iter=st.iter, body=[ast.copy_location(
-                    ast.If(test=ast.UnaryOp(op=ast.Not(), operand=st.body[0].test), body=st.body[0].orelse or [ast.Pass()], orelse=[]), st.body[0])],
-                    orelse=[]), st)
-                a._split = b._split = True
-                state = _stmt(self, a, state, ctx_)
-                return _stmt(self, b, state, ctx_) if state is not None else None
+        if isinstance(st, ast.For) and phase["var"] is None and ring_first(st.iter):
+            flagged = {x.value.id for x in ast.walk(st) if isinstance(x, ast.Attribute) and x.attr == "ring_bond" and isinstance(x.value, ast.Name)}
+            tgt = {x.id for x in ast.walk(st.target) if isinstance(x, ast.Name)} & flagged
+            if len(tgt) == 1 and not st.orelse:
+                # first every ring bond, then every other bond: the loop is run once under each assumption, in that order
+                phase["var"] = next(iter(tgt))
+                try:
+                    phase["ring"] = True
+                    state = _stmt(self, st, state, ctx_)
+                    phase["ring"] = False
+                    return _stmt(self, st, state, ctx_) if state is not None else None
+                finally:
+                    phase["var"] = phase["ring"] = None
         return _stmt(self, st, state, ctx_)
     Order.stmt = stmt
     Order(frag.node).run(frozenset())
